@@ -9,6 +9,7 @@ un-negatable => skipped) are decided only on trees that were exhausted with the 
 from __future__ import annotations
 
 import copy
+from urllib.parse import unquote, unquote_plus
 from typing import Any
 
 from mc import smallscope as ss
@@ -282,6 +283,13 @@ def wire_value_verdict(doc: dict, schema: Any, value: Any, loc: str, spec: str) 
     ``[0]`` -> ``p=0``, ``[]`` -> nothing): for a schema that does not describe an array, a one-item list is that item, an
     empty list is an omitted parameter, a longer list is left undecided.  Dict values in the query are left undecided.
     """
+    if loc == "path" and isinstance(value, str) and ("%" in value or "+" in value):
+        # Case.path_parameters holds URL text (the strategy percent-encodes every generated value): the server reads the
+        # decoded segment.  A negative label is justified as soon as one decoding violates; "conforms" needs both to conform.
+        vs = [common.param_verdict(doc, schema, d, loc, spec, decode_path=False) for d in dict.fromkeys([unquote(value), unquote_plus(value)])]
+        if any(v is False for v in vs):
+            return False
+        return True if all(v is True for v in vs) else None
     as_is = common.param_verdict(doc, schema, value, loc, spec)
     if loc == "query" and isinstance(value, (list, tuple)) and not common._allows_array(doc, schema, spec):
         if len(value) == 0:
